@@ -29,6 +29,8 @@ CHECKS = {
             "Exhaustive over all declarations; validators judged behaviourally by calling them on witnesses.", "trusted: documented Python type mapping (DESIGN 3.7); int at a decimal field not judged"),
     "C05": ("translation_validation", "6/C05", "two real generator processes under the fs tap; AST-level (python) and rustfmt byte-level (rust) comparison with the committed files, both directions",
             "Translation validation of the committed generated files against fresh generator output for the tree as it is.", "trusted: rustfmt 1.95 equals the build's formatter pass; docstring whitespace normalisation"),
+    "C06": ("exploration", "6/C06", "seeded metamodel evolutions given to four real generator processes; outputs judged by the same runtime monitors (C01-C04, C09, C10, C07, C08, C17) aimed at (evolved document, generated package)",
+            "Sampled family of evolutions (operator coverage); each evolved package is imported and exercised by the delegated monitors.", "evolution family = C06's list; mechanisms already failing on the committed model belong to that property's listing"),
     "C07": ("exploration", "6/C07", "reader over fresh rust plugin output judged against the metamodel; thorough tier compiles the crate offline and lets real serde answer probes (field lists, round-trips, missing-field)",
             "Exhaustive over all items of lib.rs; thorough adds ~1.9k real serde executions.", "trusted: reading of serde attributes (cross-checked by serde itself in thorough); Url/Decimal stubbed"),
     "C08": ("exploration", "6/C08", "reader over fresh dotnet plugin output (655 files) judged against the metamodel",
